@@ -48,13 +48,15 @@ def step_digest(env, result):
     acts = {k: (v.action, EE.normalise_ids(repr(HE.to_plain(v.parameters))), v.response.status,
                 EE.normalise_ids(repr(HE.to_plain(v.response.data)))) for k, v in info["agent_actions"].items()}
     nested = env.agent.observation_manager.current_observation
-    return HE.sha(repr((HE.to_plain(nested), round(float(rew), 9), bool(trunc), sorted(acts.items()))))
+    mask = [int(x) for x in env.action_masks()] if env.agent.config.agent_settings.action_masking else None
+    return HE.sha(repr((HE.to_plain(nested), round(float(rew), 9), bool(trunc), sorted(acts.items()), mask)))
 
 
 def explain(env, result):
     obs, rew, term, trunc, info = result
     return {"reward": float(rew), "actions": {k: (v.action, v.response.status) for k, v in info["agent_actions"].items()},
-            "obs": HE.to_plain(env.agent.observation_manager.current_observation)}
+            "obs": HE.to_plain(env.agent.observation_manager.current_observation),
+            "mask": [int(x) for x in env.action_masks()] if env.agent.config.agent_settings.action_masking else None}
 
 
 def first_diff(a, b, path=""):
@@ -163,7 +165,9 @@ def episode_item(item):
     cfg = HE.gen_scenario(v) if "path" not in v else v["path"]
     cfgd = cfg if not isinstance(cfg, str) else HE.load_yaml(cfg)
     probe = probe_script(cfgd)
-    key = (vname, seed)
+    if len(item) > 3:
+        probe = [0] * item[3]  # a long idle probe: what the scripted agents do in the new episode
+    key = (vname, seed, len(probe))
     if key not in _BASE:
         _BASE[key] = _run(cfg, [], seed, probe, keep=True)[:2]
     base_d, base_x = _BASE[key]
@@ -216,7 +220,9 @@ def _names(cfgd, hist):
 
 
 VARIANTS = [dict(HE.GEN[0], name="iso-routed", ep_len=30), dict(HE.GEN[2], name="iso-fw", ep_len=30),
-            dict(HE.GEN[1], name="iso-flat-noscan", ep_len=30)]
+            dict(HE.GEN[1], name="iso-flat-noscan", ep_len=30),
+            # a shipped scenario whose insider threat actor learns and changes credentials during the episode
+            {"name": "iso-uc7-tap003", "path": HE.SHIPPED["uc7_tap003"]}]
 
 
 # ------------------------------------------------------------------------------------------------------------
@@ -242,6 +248,8 @@ PAIRS = {
     "same": (_A, dict(_A, name="B")),
     "other-topology": (_A, dict(HE.GEN[3], name="B", ep_len=30, det=True)),
     "nmne-off-in-B": (_A, dict(_A, name="B", nmne=False)),
+    # both instances offer action masks to an agent of the same name, with different action maps
+    "masked-other-map": (dict(_A, masking=True), dict(HE.GEN[2], name="B", ep_len=30, det=True)),
     "flat-noscan-B": (_A, dict(HE.GEN[1], name="B", ep_len=30, det=True)),
     # B's scenario has no nmne_config section at all (it must then run with the documented default: no capture)
     "no-nmne-section-in-B": (_A, dict(_A, name="B", drop_nmne_section=True)),
@@ -471,6 +479,9 @@ def run(tier, is_known):
         else:
             hs = [h for h in hs if len(h) < 2] if v is not VARIANTS[0] else hs
         items += [(v["name"], h) for h in hs]
+        if v is VARIANTS[0]:
+            # a whole idle episode of the insider scenario, then a new episode observed for 45 steps
+            items.append(("iso-uc7-tap003", tuple([0] * (70 if thorough else 45)), 7, 45))
         # the boundary seed 0 (must re-seed like any other seed): after every single dirtying action and after the empty history
         if v is VARIANTS[0]:
             items += [(v["name"], h, 0) for h in hs if len(h) <= 1]
@@ -484,7 +495,7 @@ def run(tier, is_known):
     # (2)
     na, nb = (5, 3) if thorough else (3, 1)
     inst_items = []
-    for pair in (PAIRS if thorough else ("same", "nmne-off-in-B", "no-nmne-section-in-B", "other-topology", "stochastic")):
+    for pair in (PAIRS if thorough else ("same", "nmne-off-in-B", "no-nmne-section-in-B", "other-topology", "stochastic", "masked-other-map")):
         # B must live long enough to see malicious traffic of its own when B is the possible victim
         nbp = max(nb, 3) if pair == "no-nmne-section-in-B" else nb
         for order in interleavings(na + 2, nbp + 3):
